@@ -625,7 +625,7 @@ def writer_texts(repo):
         raise ExtractError('unit lrt: newline chunk not found in out_link')
     chunk = nm.group(1)
     lm = re.fullmatch(r'\("((?:[^"\\]|\\.)*)"\)@', chunk)
-    cm = re.fullmatch(r"seq!\[('(?:[^'\\]|\\.)')\]", chunk)
+    cm = re.fullmatch(r"seq!\[('(?:[^'\\]|\\.)'|[A-Z][A-Z0-9_]*)\]", chunk)
     if lm:
         n = len(re.findall(r'\\.|[^\\]', lm.group(1)))
         hints = 'reveal_strlit("%s"); assert(w_nl_text().len() == %d); ' % (lm.group(1), n) + ' '.join('assert(is_ws(w_nl_text()[%d]));' % i for i in range(n))
